@@ -228,8 +228,8 @@ static const OrcX86Opcode orc_x86_opcodes[] = {
   { "xor", ORC_X86_INSN_TYPE_IMM32_REGM, 0, ORC_VEX_SIMD_PREFIX_NONE, 0x81, 6 },
   { "xor", ORC_X86_INSN_TYPE_REGM_REG, 0, ORC_VEX_SIMD_PREFIX_NONE, 0x33 },
   { "xor", ORC_X86_INSN_TYPE_REG_REGM, 0, ORC_VEX_SIMD_PREFIX_NONE, 0x31 },
-  { "cmpb", ORC_X86_INSN_TYPE_IMM8_REGM, 0, ORC_VEX_SIMD_PREFIX_NONE, 0x83, 7 },
-  { "cmpd", ORC_X86_INSN_TYPE_IMM32_REGM, 0, ORC_VEX_SIMD_PREFIX_NONE, 0x81, 7 },
+  { "cmpl", ORC_X86_INSN_TYPE_IMM8_REGM, 0, ORC_VEX_SIMD_PREFIX_NONE, 0x83, 7 },
+  { "cmpl", ORC_X86_INSN_TYPE_IMM32_REGM, 0, ORC_VEX_SIMD_PREFIX_NONE, 0x81, 7 },
   { "cmp", ORC_X86_INSN_TYPE_REGM_REG, 0, ORC_VEX_SIMD_PREFIX_NONE, 0x3b },
   { "cmp", ORC_X86_INSN_TYPE_REG_REGM, 0, ORC_VEX_SIMD_PREFIX_NONE, 0x39 },
   { "jo", ORC_X86_INSN_TYPE_BRANCH, 0, ORC_VEX_SIMD_PREFIX_NONE, 0x70 },
